@@ -189,6 +189,7 @@ func (c *scriptConn) Close() error {
 }
 
 type clientHarness struct {
+	inAppStop bool // the application is stopping a transaction through the shared agent (op 12)
 	o        *out
 	line     string
 	mu       sync.Mutex
@@ -264,7 +265,10 @@ func (h *clientHarness) checkWrite(inst int, b []byte, now int) {
 	if k > h.maxA {
 		h.o.failFor("C11", "more-than-n+1-transmissions", h.line)
 	}
-	if k >= 1 && !(now > h.lastWrite[inst]+k*h.rtoOf[inst]) {
+	// a retransmission provoked by the APPLICATION stopping the transaction through a shared agent is outside
+	// C11's quantifier (clock advances, responses, SetRTO, buffer reuse): the client treats the "stopped" event
+	// like a timeout and retransmits at once; the model (CAppStop) predicts that write, so it is still compared
+	if k >= 1 && !h.inAppStop && !(now > h.lastWrite[inst]+k*h.rtoOf[inst]) {
 		h.o.failFor("C11", "retransmitted-before-deadline", fmt.Sprintf("%s inst=%d k=%d now=%d last=%d rto=%d", h.line, inst, k, now, h.lastWrite[inst], h.rtoOf[inst]))
 	}
 	if h.invoked[inst] > 0 {
@@ -543,6 +547,14 @@ func execClientHistory(o *out, f [][]int) []int {
 			h.curRTO = op[1]
 		case 11: // another user of the agent registers a transaction
 			_ = gate.Agent.Start(clientTID(op[1]), agentBase.Add(4000000000000000000))
+		case 12: // the application stops a transaction through the agent it shares with the client
+			h.mu.Lock()
+			h.inAppStop = true
+			h.mu.Unlock()
+			_ = gate.Agent.Stop(clientTID(op[1]))
+			h.mu.Lock()
+			h.inAppStop = false
+			h.mu.Unlock()
 		case 7:
 			conn.mu.Lock()
 			conn.failInst = map[int]bool{}
@@ -844,6 +856,13 @@ func (g *clientGen) history(n int) []string {
 			case 3:
 				// another user of the agent holds an ID the client is going to use
 				fs = append(fs, fNums(11, r.pick([]int{1, 2, 3, 5, 9, 17, 257})))
+			case 4:
+				// the application stops a transaction (mostly one in flight) through the shared agent
+				id := r.pick([]int{1, 2, 3, 5, 9, 17, 257})
+				if len(g.live) > 0 && r.chance(4, 5) {
+					id = g.live[r.intn(len(g.live))]
+				}
+				fs = append(fs, fNums(12, id))
 			}
 		}
 	}
@@ -905,6 +924,10 @@ func runClientExhaustive(o *out, depth int) int {
 			}
 		}
 		rec(nil, 0, depth)
+		// the same with the application stopping transaction 1 or 2 through the shared agent, one level less
+		alphabet = append(alphabet, fNums(12, 1), fNums(12, 2))
+		rec(nil, 0, depth-1)
+		alphabet = alphabet[:len(alphabet)-2]
 	}
 	return cnt
 }
